@@ -1,4 +1,4 @@
-(* textual group names -> Model.gid *)
+(* textual group names -> Model.gid;  bundles: B[g,g,...] (no nesting) *)
 let rec parse nat_of_int (s : string) : Model.gid =
   match s with
   | "SO2" -> Model.GSO2
@@ -7,6 +7,9 @@ let rec parse nat_of_int (s : string) : Model.gid =
   | "SE3" -> Model.GSE3
   | "SE23" -> Model.GSE23
   | "SGal3" -> Model.GSGal3
+  | _ when String.length s > 2 && s.[0] = 'B' && s.[1] = '[' ->
+    let inner = String.sub s 2 (String.length s - 3) in
+    Model.GBundle (List.map (parse nat_of_int) (String.split_on_char ',' inner))
   | _ when String.length s > 1 && s.[0] = 'R' ->
     Model.GRn (nat_of_int (int_of_string (String.sub s 1 (String.length s - 1))))
   | _ -> failwith ("unknown group " ^ s)
